@@ -200,10 +200,13 @@ def check_c17(ctx, led):
     versions = sorted(set(list(mp.values()) + [dval]), key=float)
     disp = None
     head = None
+    def names_in(node):
+        return set(x.id for x in ast.walk(node) if isinstance(x, ast.Name))
+
     for n in ast.walk(f.node):
         if isinstance(n, ast.If):
             src = ast.unparse(n)
-            if "CVSS2(" in src and "CVSS3(" in src and disp is None and not any(isinstance(x, ast.Try) for x in n.body):
+            if {"CVSS2", "CVSS3"} <= names_in(n) and disp is None and not any(isinstance(x, ast.Try) for x in ast.walk(n)) and "print" not in names_in(n):
                 disp = n
             if "print('CVSS2')" in src and head is None and not any(isinstance(x, ast.Try) for x in ast.walk(n)):
                 head = n
@@ -211,6 +214,7 @@ def check_c17(ctx, led):
         raise AnalysisError("C17.dispatch", "class dispatch chain not found", f.node, module)
     obj_name = None
     ctor_calls = []
+    class_var = None
     for v in versions:
         arm = chain_result(disp, {"version": v})
         ctor = [x for b in arm for x in ast.walk(b) if isinstance(x, ast.Call) and isinstance(x.func, ast.Name) and x.func.id.startswith("CVSS") and x.func.id[4:].isdigit()]
@@ -218,7 +222,14 @@ def check_c17(ctx, led):
         ctor_calls.extend(ctor)
         for b in arm:
             if isinstance(b, ast.Assign) and isinstance(b.targets[0], ast.Name):
-                obj_name = b.targets[0].id
+                if ctor:
+                    obj_name = b.targets[0].id
+                elif isinstance(b.value, ast.Name) and b.value.id.startswith("CVSS") and b.value.id[4:].isdigit():
+                    # the arm selects the class; it is instantiated after the chain
+                    class_var = b.targets[0].id
+                    got = b.value.id
+        if got is None and not G.terminates(arm):
+            raise AnalysisError("C17.dispatch", "cannot tell which class scores version %s" % v, disp, module)
         led.check(
             got == CLASS_OF_VERSION.get(v),
             "C17.dispatch",
@@ -226,6 +237,13 @@ def check_c17(ctx, led):
             module.where(disp),
             "version %s is scored with %s, expected %s" % (v, got, CLASS_OF_VERSION.get(v)),
         )
+    if class_var is not None:
+        for n in ast.walk(f.node):
+            if isinstance(n, ast.Call) and isinstance(n.func, ast.Name) and n.func.id == class_var:
+                ctor_calls.append(n)
+                st_ = _stmt(module, n)
+                if isinstance(st_, ast.Assign) and isinstance(st_.targets[0], ast.Name):
+                    obj_name = st_.targets[0].id
     if head is not None:
         for v in versions:
             arm = chain_result(head, {"version": v})
